@@ -101,6 +101,11 @@ func refConfFromConfState(cs *pb.ConfState) *RefConf {
 	return c
 }
 
+// ConfState renders the configuration as a raftpb.ConfState (ids ascending).
+func (c *RefConf) ConfState() *pb.ConfState {
+	return &pb.ConfState{Voters: sortedKeys(c.I), VotersOutgoing: sortedKeys(c.O), Learners: sortedKeys(c.L), LearnersNext: sortedKeys(c.LN), AutoLeave: new(c.Auto)}
+}
+
 func refConfFromLists(voters, outgoing, learners, learnersNext []uint64, auto bool) *RefConf {
 	c := newRefConf()
 	for _, v := range voters {
